@@ -92,7 +92,17 @@ TSummary == /\ IsEvent("summary")
                            completed, failed, resq, senders, results, summary, opRuns, recorded, startedAtRecord, preCancel>>
             /\ Keep
 
-TNext == \/ TReset \/ TDCheck \/ TDSend \/ TDClose \/ TDJoined \/ TWRecv \/ TWDone
+(* The final state of a batch whose events were NOT logged (stress: 16 all-succeeding jobs on 4 workers, released
+   in waves so that workers finish together).  Every behaviour of Batch ends in a state satisfying OneResultEach
+   and CountsMatch, so whatever happened inside, the observed summary and progress counters must satisfy them.  *)
+TStressFinal == /\ IsEvent("stress_final")
+                /\ E.len = E.n /\ E.total = E.n /\ E.inOrder
+                /\ \A j \in 1..E.n : E.results[j] = "ok"
+                /\ E.successful = E.n /\ E.failed = 0
+                /\ E.running = 0 /\ E.completed = E.successful /\ E.failedJobs = E.failed
+                /\ UNCHANGED vars /\ Keep
+
+TNext == \/ TStressFinal \/ TReset \/ TDCheck \/ TDSend \/ TDClose \/ TDJoined \/ TWRecv \/ TWDone
          \/ TJStart \/ TJLoad \/ TOpBegin \/ TOpEnd \/ TJProgress \/ TJSend \/ TJStore \/ TUserCancel
          \/ TCRecv \/ TSummary
 
